@@ -2,13 +2,13 @@ SPECIFICATION Spec
 CONSTANTS
   NF = 2
   MaxLen = 12
-  Kinds = {"mod", "add", "addempty", "del", "rename", "renmod", "copy", "modeonly", "modemod", "bin", "binadd", "bare", "modebin", "renmode", "sublog", "subshort", "binx", "renbin"}
+  Kinds = {"mod", "add", "addempty", "del", "rename", "renmod", "copy", "modeonly", "modemod", "bin", "binadd", "bare", "modebin", "renmode", "sublog", "subshort", "binx", "renbin", "subdel", "subadd"}
   MaxHunks = 2
   MaxBody = 3
   Preamble = FALSE
   MaxConf = 1
   Buf = 1
-  Fixes = {"D1", "D14", "D2", "D18", "D19", "D20", "D21", "D23", "D24"}
+  Fixes = {"D1", "D14", "D2", "D18", "D19", "D20", "D21", "D23", "D24", "D25"}
   ColorOnly = FALSE
   Modes = {}
   ReplayLen = 12
